@@ -518,10 +518,65 @@ fn utf8_names(t: &mut Tape) -> Vec<u8> {
     e.buf
 }
 
+/// structures whose length fields hold the last representable values WITH the announced bytes present (so that arithmetic on
+/// the length - `3 + len`, `len + 2`, `len * 8` - is reached with its largest operands)
+fn maxed(t: &mut Tape) -> Vec<u8> {
+    let mut e = Enc::new();
+    let top16 = |t: &mut Tape| t.pick(&[65535usize, 65534, 65533, 65532, 65531, 65536 - 49, 32768, 32767]);
+    match t.below(9) {
+        0 => {
+            // heartbeat message: type, u16 payload length, payload (+ padding)
+            let n = top16(t).min(65535);
+            e.u8(1);
+            e.u16(n as u16);
+            e.bytes(&vec![0x11u8; n]);
+            e.bytes(&t.small_blob(20));
+        }
+        1 => MDh { p: vec![1; top16(t).min(65535)], g: vec![2], ys: vec![3; t.pick(&[0usize, 65535, 65534])] }.encode(&mut e),
+        2 => MSigned { alg: if t.bool() { Some((4, 3)) } else { None }, data: vec![9; top16(t).min(65535)] }.encode(&mut e),
+        3 => MExt::Unknown(t.pick(&[0x1234u16, 35, 21, 41, 44, 51]), vec![0; top16(t).min(65535)]).encode(&mut e),
+        4 => {
+            let l = vec![MSct { version: 0, id: vec![7; 32], timestamp: 1, extensions: vec![5; top16(t).min(65535 - 49 - 8)], hash: 4, sign: 3, alg_present: true, signature: vec![1; 8] }];
+            e = encode_sct_list(&l);
+        }
+        5 => {
+            // handshake message with a body just around 2^16 (and the 24-bit maximum announced but absent)
+            let n = t.pick(&[65535usize, 65536, 65537, 70000]);
+            e.u8(t.pick(&[12u8, 16, 20, 15, 4, 11]));
+            e.u24(n as u32);
+            e.bytes(&vec![0x22u8; n]);
+        }
+        6 => {
+            e.u8(0x17);
+            e.u16(0x0303);
+            let n = t.pick(&[16640usize, 16639, 16384]);
+            e.u16(n as u16);
+            e.bytes(&vec![0x33u8; n]);
+            e.bytes(&vec![0x44u8; t.pick(&[0usize, 65536 - 5, 65536, 70000])]);
+        }
+        7 => {
+            // DTLS record at the cap followed by 64 KiB
+            e.u8(0x15);
+            e.u16(0xfefd);
+            e.u16(1);
+            e.u48(2);
+            e.u16(2);
+            e.bytes(&[1, 0]);
+            e.bytes(&vec![0x55u8; t.pick(&[65534usize, 65535, 65536, 70000])]);
+        }
+        _ => {
+            // EC / ECDH with 255-byte fields, ALPN / point-format vectors at 255
+            MEcdh { params: MEcParams::ExplicitPrime { p: vec![1; 255], a: vec![2; 255], b: vec![3; 255], base: vec![4; 255], order: vec![5; 255], cofactor: vec![6; 255] }, public: vec![7; 255] }.encode(&mut e);
+        }
+    }
+    e.buf
+}
+
 fn gen_input(t: &mut Tape) -> (String, Vec<u8>) {
-    match t.weighted(&[4, 1, 10, 1, 4, 2]) {
+    match t.weighted(&[4, 1, 10, 1, 4, 2, 1]) {
         4 => ("edge-headers".into(), edge_headers(t)),
         5 => ("utf8-names".into(), utf8_names(t)),
+        6 => ("maxed".into(), maxed(t)),
         0 => {
             let n = match t.below(3) {
                 0 => t.below(16),
